@@ -264,8 +264,6 @@ func main() {
 	fmt.Fprintf(&b, "(* ... all Store methods *)\nDefinition gen_store_types : list (string * string) := [\n  %s].\n\n", strings.Join(all(sm), ";\n  "))
 	fmt.Fprintf(&b, "(* cachedstore: calls on the main store per wrapper method, in source order *)\nDefinition gen_cached_main_calls : list (string * list string) := %s.\n\n",
 		wrapperCalls(filepath.Join(repo, "component/storageutil/cachedstore/cachedstore.go"), "store", "mainStore", sm))
-	fmt.Fprintf(&b, "(* ... and on the cache store *)\nDefinition gen_cached_cache_calls : list (string * list string) := %s.\n\n",
-		wrapperCalls(filepath.Join(repo, "component/storageutil/cachedstore/cachedstore.go"), "store", "cacheStore", sm))
 	fmt.Fprintf(&b, "(* batchedstore: calls on the underlying store per wrapper method, own methods inlined *)\nDefinition gen_batched_calls : list (string * list string) := %s.\n",
 		wrapperCalls(filepath.Join(repo, "component/storageutil/batchedstore/batchedstore.go"), "store", "underlyingStore", sm))
 
